@@ -2,6 +2,7 @@ package main
 
 import (
 	"fmt"
+	"sort"
 	"time"
 	"go/token"
 	"go/types"
@@ -391,7 +392,10 @@ func (c *Ctx) mergeStates(es []edgeState) *State {
 		s := live[i].st
 		cnd := s.pc
 		// cells
-		for k, v := range s.cells {
+		// all iterations in a fixed order: the order in which terms are built
+		// decides their names in the query, and the solvers are sensitive to it
+		for _, k := range sortedCells(s.cells) {
+			v := s.cells[k]
 			if o, ok := res.cells[k]; ok {
 				res.cells[k] = iteVal(cnd, v, o)
 			} else if k.Global != nil {
@@ -400,26 +404,33 @@ func (c *Ctx) mergeStates(es []edgeState) *State {
 				res.cells[k] = v
 			}
 		}
-		for k, o := range res.cells {
+		for _, k := range sortedCells(res.cells) {
+			o := res.cells[k]
 			if _, ok := s.cells[k]; !ok && k.Global != nil {
 				res.cells[k] = iteVal(cnd, c.globalInitial(k), o)
 			}
 		}
-		for k, v := range s.regs {
+		for _, k := range sortedRegs(s.regs) {
+			v := s.regs[k]
 			if o, ok := res.regs[k]; ok {
 				res.regs[k] = iteVal(cnd, v, o)
 			} else {
 				res.regs[k] = v
 			}
 		}
-		keys := map[HKey]bool{}
+		keyset := map[HKey]bool{}
 		for k := range s.heap {
-			keys[k] = true
+			keyset[k] = true
 		}
 		for k := range res.heap {
-			keys[k] = true
+			keyset[k] = true
 		}
-		for k := range keys {
+		keys := make([]HKey, 0, len(keyset))
+		for k := range keyset {
+			keys = append(keys, k)
+		}
+		sort.Slice(keys, func(i, j int) bool { return keys[i].String() < keys[j].String() })
+		for _, k := range keys {
 			a, aok := s.heap[k]
 			b, bok := res.heap[k]
 			if !aok {
@@ -551,4 +562,38 @@ func skolemizeGoal(t *Term, depth int) *Term {
 		}
 	}
 	return t
+}
+
+func sortedCells(m map[*Cell]*Val) []*Cell {
+	ks := make([]*Cell, 0, len(m))
+	for k := range m {
+		ks = append(ks, k)
+	}
+	sort.Slice(ks, func(i, j int) bool { return ks[i].id < ks[j].id })
+	return ks
+}
+
+func sortedRegs(m map[ssa.Value]*Val) []ssa.Value {
+	ks := make([]ssa.Value, 0, len(m))
+	for k := range m {
+		ks = append(ks, k)
+	}
+	sort.Slice(ks, func(i, j int) bool {
+		a, b := ks[i], ks[j]
+		if a.Pos() != b.Pos() {
+			return a.Pos() < b.Pos()
+		}
+		if a.Name() != b.Name() {
+			return a.Name() < b.Name()
+		}
+		pa, pb := "", ""
+		if a.Parent() != nil {
+			pa = a.Parent().String()
+		}
+		if b.Parent() != nil {
+			pb = b.Parent().String()
+		}
+		return pa < pb
+	})
+	return ks
 }
